@@ -225,8 +225,8 @@ def PMap.set (m : PMap) (price amount : Rat) : PMap :=
 def PMap.apply (m : PMap) (changes : List Level) : PMap :=
   changes.foldl (fun m l => m.set l.price l.amount) m
 
-/-- the map holding exactly the given levels (a snapshot). -/
-def PMap.ofLevels (levels : List Level) : PMap := PMap.apply [] levels
+/-- the map holding exactly the given levels (a snapshot): the levels themselves are the entries. -/
+def PMap.ofLevels (levels : List Level) : PMap := levels
 
 /-- The levels of the map in book order: bids by descending, asks by ascending price. -/
 def PMap.levels (side : Side) (m : PMap) : List Level := m.mergeSort side.le
@@ -273,5 +273,31 @@ def Spec.snapshot (s : Spec) (depth : Nat) : OrderBook :=
 /-- the full book the map denotes. -/
 def Spec.book (s : Spec) : OrderBook :=
   ⟨s.sequence, PMap.levels .bids s.bids, PMap.levels .asks s.asks⟩
+
+/-! ## Predicates used in the statements -/
+
+/-- stored strictly in book order (bids: strictly descending prices, asks: strictly ascending);
+in particular no price appears twice. -/
+def Sorted (s : Side) (ls : List Level) : Prop :=
+  ls.Pairwise (fun a b => s.before a.price b.price = true)
+
+/-- no level with amount zero is stored. -/
+def NonZero (ls : List Level) : Prop := ∀ l ∈ ls, l.amount ≠ 0
+
+/-- both sides in strict book order. -/
+structure SortedBook (b : OrderBook) : Prop where
+  bids : Sorted .bids b.bids
+  asks : Sorted .asks b.asks
+
+/-- The invariant of C05: both sides in strict book order and free of zero amounts. -/
+structure WFBook (b : OrderBook) : Prop extends SortedBook b where
+  bidsNonZero : NonZero b.bids
+  asksNonZero : NonZero b.asks
+
+/-- well-formed finite map: one entry per price, no zero amounts. -/
+def PMap.WF (m : PMap) : Prop := (m.map Level.price).Nodup ∧ NonZero m
+
+instance (s : Side) (ls : List Level) : Decidable (Sorted s ls) := by unfold Sorted; infer_instance
+instance (ls : List Level) : Decidable (NonZero ls) := by unfold NonZero; infer_instance
 
 end BarterModel.Book
